@@ -211,7 +211,9 @@ Section Machine.
     let p := a_obs st ce in
     fold_left (alt_ev P) (ap_evs p)
       (Some (match ap_da p, ap_cls p with
-             | Some da, COther => if other_sets && negb (Z.testbit (a_bits st) da) then Z.setbit (a_bits st) da else a_bits st
+             | Some da, COther =>
+                 if other_sets && negb (Z.testbit (a_bits st) da) && negb (has_up da (ap_evs p))
+                 then Z.setbit (a_bits st) da else a_bits st
              | _, _ => a_bits st
              end)) = Some (ap_bits p).
   Proof.
@@ -222,7 +224,7 @@ Section Machine.
     - destruct (Z.testbit (a_bits st) (a_cur st)) eqn:B.
       + destruct requery; cbn [fold_left alt_ev]; [rewrite B|]; reflexivity.
       + cbn [fold_left alt_ev]. rewrite B. reflexivity.
-    - reflexivity.
+    - cbn [has_up existsb negb]. rewrite andb_true_r. reflexivity.
   Qed.
 
   Lemma a_obs_bits st ce : ap_bits (a_obs st ce) = a_bits (a_next st ce).
@@ -247,7 +249,9 @@ Section Machine.
       cbn [a_trace no_other forallb] in N. apply andb_prop in N. exact (proj2 N). }
     pose proof (a_alt_step st ce H) as S. cbv zeta in S.
     assert (E : (match ap_da (a_obs st ce), ap_cls (a_obs st ce) with
-                 | Some da, COther => if other_sets && negb (Z.testbit (a_bits st) da) then Z.setbit (a_bits st) da else a_bits st
+                 | Some da, COther =>
+                     if other_sets && negb (Z.testbit (a_bits st) da) && negb (has_up da (ap_evs (a_obs st ce)))
+                     then Z.setbit (a_bits st) da else a_bits st
                  | _, _ => a_bits st end) = a_bits st).
     { destruct (ap_da (a_obs st ce)) as [da|]; [|reflexivity].
       destruct (ap_cls (a_obs st ce)) eqn:C; try reflexivity.
@@ -260,11 +264,38 @@ Section Machine.
     apply IH; [apply a_next_cur_ok; exact H|exact Hyp'].
   Qed.
 
+  (* strict alternation is due whenever no marking went unannounced *)
+  Lemma a_alt_strict_ns h : forall st, cur_ok st ->
+    no_silent (a_bits st) (a_trace st h) = true ->
+    alt_walk false (a_bits st) (a_trace st h) = Some (a_bits (a_final st h)).
+  Proof.
+    induction h as [|ce h IH]; intros st H N; cbn [a_trace a_final alt_walk]; [reflexivity|].
+    cbn [a_trace no_silent] in N. apply andb_prop in N. destruct N as [N1 N2].
+    rewrite a_obs_bits in N2.
+    pose proof (a_alt_step st ce H) as S. cbv zeta in S.
+    assert (E : (match ap_da (a_obs st ce), ap_cls (a_obs st ce) with
+                 | Some da, COther =>
+                     if other_sets && negb (Z.testbit (a_bits st) da) && negb (has_up da (ap_evs (a_obs st ce)))
+                     then Z.setbit (a_bits st) da else a_bits st
+                 | _, _ => a_bits st end) = a_bits st).
+    { clear S. unfold a_obs in *. destruct (a_dn st); cbn [ap_da ap_cls ap_evs ap_bits] in *; [reflexivity|].
+      destruct (ce (a_cur st)) as [| |p|]; try reflexivity.
+      cbn [spec_evs spec_bits has_up existsb orb negb] in *. rewrite orb_false_r in N1. rewrite andb_true_r.
+      destruct (Z.testbit (a_bits st) (a_cur st)) eqn:B; cbn [negb orb] in *; [rewrite andb_false_r; reflexivity|].
+      destruct other_sets; cbn [andb] in *; [|reflexivity].
+      rewrite Z.setbit_eq in N1 by (unfold cur_ok in H; lia). discriminate N1. }
+    rewrite E in S.
+    match goal with |- context [fold_left _ _ (Some ?k)] => replace k with (a_bits st) end.
+    2:{ destruct (ap_da (a_obs st ce)); [|reflexivity]. destruct (ap_cls (a_obs st ce)); reflexivity. }
+    rewrite S. rewrite a_obs_bits, Z.eqb_refl.
+    apply IH; [apply a_next_cur_ok; exact H|exact N2].
+  Qed.
+
   (* every event is justified by what was observed at the probed address *)
-  Lemma a_evs_match h : forall st, evs_matchb peqb (a_trace st h) = true.
+  Lemma a_evs_match lenient h : forall st, evs_matchb peqb lenient (a_trace st h) = true.
   Proof.
     induction h as [|ce h IH]; intros st; cbn [a_trace evs_matchb forallb]; [reflexivity|].
-    fold (evs_matchb peqb (a_trace (a_next st ce) h)). rewrite IH, andb_true_r.
+    fold (evs_matchb peqb lenient (a_trace (a_next st ce) h)). rewrite IH, andb_true_r.
     unfold a_obs. destruct (a_dn st); cbn [ap_evs forallb]; [reflexivity|].
     unfold ev_matchb; cbn [ap_da ap_cls].
     destruct (ce (a_cur st)) as [| |p|]; cbn [spec_evs forallb]; try reflexivity.
